@@ -954,7 +954,9 @@ def cx_generate(seed, nprog, steps, out_path, configs):
         T, N, M = configs[k % len(configs)]
         st = []
         for i in range(steps):
-            op = rnd.randrange(28)
+            op = rnd.randrange(33)
+            if rnd.random() < 0.15:
+                op = rnd.choice((11, 11, 28, 28, 29, 32, 25))   # more reserve + aliasing calls: fitting aliased inserts need spare capacity
             if rnd.random() < 0.4:
                 op |= 64
             st.append("{%d,%d,%d,%d}" % (op, rnd.randrange(50), rnd.randrange(9), 1 + rnd.randrange(90)))
@@ -977,8 +979,8 @@ def cx_generate(seed, nprog, steps, out_path, configs):
 def check_C08(tier, seed):
     import re
     rp = Report("C08", tier, seed, "exploration")
-    rp.rule = ("seeded random programs (30 steps over two containers small_vector<T,N> / small_vector<T,M>, T in {int, literal non-trivial type}, N,M in {0,1,2,4} incl. pairs; 28 op kinds: push/emplace/insert (value, n, range, "
-               "aliasing)/erase/pop/clear/resize/reserve/shrink_to_fit/assign/append/cross-capacity copy+move assign/swap/copy+move construction/comparisons/erase/erase_if) are emitted as constexpr data; each program is "
+    rp.rule = ("seeded random programs (30 steps over two containers small_vector<T,N> / small_vector<T,M>, T in {int, literal non-trivial type}, N,M in {0,1,2,4} incl. pairs; 33 op kinds: push/emplace/insert/resize (value, n, range, "
+               "aliasing arguments v[i])/erase/pop/clear/resize/reserve/shrink_to_fit/assign/append/cross-capacity copy+move assign/swap/copy+move construction/comparisons/erase/erase_if) are emitted as constexpr data; each program is "
                "evaluated by the compiler's constant evaluator into a constexpr array of per-step observations (returned offsets, sizes, content checksums, growth capacities, front/back) -- the evaluator rejects UB, out-of-lifetime access "
                "and unreleased allocations -- and again at run time on a laundered copy; every observation must agree. Not compared (unspecified): inlined(), moved-from contents, capacity after a move/swap. "
                "tuple = (element type, N, M, op kind)")
